@@ -740,10 +740,10 @@ def build_kinds():
     chart_kind("line_series", "CH-line", P0 + (A("series"), I(0)), [Prop("LineSeries", "smooth", two_bool())], corpus=True)
     chart_kind("marker", "CH-line", P0 + (A("series"), I(1), A("marker")), [
         Prop("Marker", "size", int_range(2, 72, (9, 40), none=True, documented=True), none_reading=None, none_removes=True),
-        Prop("Marker", "style", enum_vals(ENUM_CHART + ":XL_MARKER_STYLE", quick=4))], corpus=True)
+        Prop("Marker", "style", enum_vals(ENUM_CHART + ":XL_MARKER_STYLE", none=True, quick=4), none_reading=None)], corpus=True)
     chart_kind("xy_marker", "CH-xy", P0 + (A("series"), I(0), A("marker")), [
         Prop("Marker", "size", int_range(2, 72, (9, 40), none=True, documented=True), none_reading=None, none_removes=True),
-        Prop("Marker", "style", enum_vals(ENUM_CHART + ":XL_MARKER_STYLE", quick=4))])
+        Prop("Marker", "style", enum_vals(ENUM_CHART + ":XL_MARKER_STYLE", none=True, quick=4), none_reading=None)])
     # --- several points of one series (histories across them: CROSS_OBJECT_GROUPS_QUICK) -------------
     def point_label_props():
         return [Prop("DataLabel", "position", enum_vals(ENUM_CHART + ":XL_LABEL_POSITION", none=True, quick=4), none_reading=None),
@@ -751,7 +751,7 @@ def build_kinds():
 
     def marker_props():
         return [Prop("Marker", "size", int_range(2, 72, (9, 40), none=True, documented=True), none_reading=None, none_removes=True),
-                Prop("Marker", "style", enum_vals(ENUM_CHART + ":XL_MARKER_STYLE", quick=4))]
+                Prop("Marker", "style", enum_vals(ENUM_CHART + ":XL_MARKER_STYLE", none=True, quick=4), none_reading=None)]
 
     def label_font_props():
         """Font of a point's data label: these kinds exist for the ORDER histories across points, so only the
